@@ -10,11 +10,12 @@ ASSUMPTIONS = [
     "patterns are rendered by TLC from ASTs of bounded depth; test strings are all strings up to length 3 over {a,b,c,0,-,space,],$,[} (quick: all up to length 2 and every third of length 3)",
 ]
 SIGMA = ["a", "b", "c", "0", "-", " ", "]", "$", "["]
+SIGMA0 = "^ab-"
 
 
-def gen_cfg(depth):
+def gen_cfg(depth, sigma=None):
     return ('SPECIFICATION Spec\nCONSTANTS Sigma = {%s}\n L = 3\n Depth = %d\nCHECK_DEADLOCK FALSE\n'
-            % (", ".join('"%s"' % c for c in SIGMA), depth))
+            % (", ".join('"%s"' % c for c in (sigma or SIGMA)), depth))
 
 
 def bounds(tier):
@@ -80,6 +81,10 @@ def generate(tier, seed, work, stats):
         cases.append(dict(pat=st["pat"], den=sorted(st["lang"]), ast=tlaparse.to_json(st["ast"]), family="PyRegexGen"))
     for c in list(cases)[:: 4 if tier == "quick" else 2]:
         cases.append(dict(pat=mutate_text(c["pat"], rnd), den=[], ast=c["ast"], family="mutated"))
+    # sets with a caret as a member (family Depth = 0 of the generator), denotation over {^, a, b, -}
+    for st in sorted(core.tlc_dump("PyRegexGen", gen_cfg(0, SIGMA0), work, stats=stats, workers=4, name="PyRegexGen-caret"),
+                     key=lambda s: s["pat"]):
+        cases.append(dict(pat=st["pat"], den=sorted(st["lang"]), ast=tlaparse.to_json(st["ast"]), family="PyRegexGen", sigma=SIGMA0))
     # degenerate patterns of the subset (empty pattern, empty groups and alternatives at every position): CPython decides
     for pat in DIRECTED:
         cases.append(dict(pat=pat, den=[], ast={}, family="directed"))
@@ -113,13 +118,14 @@ def replay(case):
     from pyformlang.regular_expression import PythonRegex
     pat = case["pat"]
     ev = {"op": "pyregex", "pat": pat, "den": case["den"], "re": [], "acc": [], "family": case["family"]}
-    if case.get("tier") == "quick":
-        keep = set(strings("quick"))
-        ev["den"] = [s for s in case["den"] if s in keep]
     ss = strings(case.get("tier", "thorough"))
     if case.get("sigma"):
         import itertools
         ss = ["".join(t) for n in range(case.get("maxlen", 3) + 1) for t in itertools.product(case["sigma"], repeat=n)]
+    if case.get("tier") == "quick":
+        # the denotation is compared on the strings that are actually tried (those of the case's own alphabet)
+        keep = set(ss)
+        ev["den"] = [s for s in case["den"] if s in keep]
     with warnings.catch_warnings():
         warnings.simplefilter("ignore")
         try:
